@@ -18,7 +18,7 @@ else:
 
 t3 = os.path.join(here, "src", "gen_c03.rs")
 tmp3 = t3 + ".tmp"
-gen_c03.generate(tmp3, 4 if os.environ.get("VERIF_GEN_TIER", "thorough") == "thorough" else 3)
+gen_c03.generate(tmp3, 5 if os.environ.get("VERIF_GEN_TIER", "thorough") == "thorough" else 3)
 if not os.path.exists(t3) or open(t3).read() != open(tmp3).read():
     os.replace(tmp3, t3)
 else:
